@@ -118,6 +118,12 @@ fn gen_natural(rng: &mut Rng, idx: usize) -> String {
         "emit(1 // 0)",
         "emit(\"a\" + 1)",
         "emit(undefined_name_zz)",
+        "zq1 = [1]\nzq2 = {}\nemit(undefined_name_zz)",
+        "zq3 = 1\ndef zq_f():\n    return undefined_inner_zz\nzq4 = 2",
+        "zq5 = [x for x in range(3)]\nzq6 = zq5 + undefined_name_zz",
+        "def zq_g(a, a):\n    return a\nzq7 = 1",
+        "zq8 = 1\nbreak",
+        "zq9 = 1\nreturn 3",
         "emit(None.foo)",
         "def broken(:\n    pass",
         "emit(len())",
